@@ -15,10 +15,20 @@ import (
 )
 
 const (
-	RepoDir    = "/repo"
 	VerifDir   = "/verif"
 	RepoModule = "github.com/acekingke/yaccgo"
 )
+
+// RepoDir is the tree under check: /repo, unless VERIF_REPO points at a scratch copy
+// (used only to try seeded changes and for background runs; registered commands use /repo).
+var RepoDir = repoDir()
+
+func repoDir() string {
+	if d := os.Getenv("VERIF_REPO"); d != "" {
+		return d
+	}
+	return "/repo"
+}
 
 var pkgLine = regexp.MustCompile(`(?m)^package\s+(\w+)`)
 
